@@ -1571,6 +1571,20 @@ where
                 .collect()
         });
 
+    // A Merkle cap has 2^cap_height entries: the MMCS gadgets assert a non-empty cap and take
+    // `log2_strict_usize` of its length. Reject anything else here with a typed error.
+    for caps in [&pre_packed_input_caps, &pre_packed_commit_caps]
+        .into_iter()
+        .flatten()
+    {
+        if let Some(bad) = caps.iter().find(|cap| !cap.len().is_power_of_two()) {
+            return Err(VerificationError::InvalidProofShape(format!(
+                "Merkle cap with {} entries: the number of cap entries must be a non-zero power of two",
+                bad.len()
+            )));
+        }
+    }
+
     // Collect all MMCS operation IDs for private data setting
     let mut all_mmcs_op_ids = Vec::new();
 
